@@ -63,7 +63,11 @@ def supported_rel(rng, n):
 
 def rand_expr(rng, n, depth=0):
     r = rng.random()
-    if depth >= 2 or r < 0.3:
+    if depth >= 2:
+        # leaves: mostly variables, sometimes a constant - `c - x` (the library's reversed difference) has to be
+        # able to appear *below* another operator too
+        return V(rng.randrange(n)) if rng.random() < 0.8 else C(_small(rng))
+    if r < 0.3:
         return V(rng.randrange(n))
     if r < 0.38:
         return C(_small(rng))
@@ -94,6 +98,23 @@ def grammar_rel(rng, n):
         return ("rel", op, ("sub", V(rng.randrange(n)), V(rng.randrange(n))), rng.choice([C(_small(rng)), V(rng.randrange(n))]))
     if r < 0.5:
         return ("rel", op, ("rmul", rng.choice([2, 3, -1]), V(rng.randrange(n))), ("add", V(rng.randrange(n)), C(_small(rng))))
+    if r < 0.58:
+        # a reversed difference c - x under a factor, on the right of a subtraction, or inside a sum
+        rd = ("sub", C(rng.choice([1, 2, 3, 4, 5, -1, -2])), V(rng.randrange(n)))
+        k = rng.choice([2, 3, -1, -2])
+        shape = rng.randrange(5)
+        if shape == 0:
+            a = ("mul", rd, k)
+        elif shape == 1:
+            a = ("rmul", k, rd)
+        elif shape == 2:
+            a = ("sub", V(rng.randrange(n)), rd)
+        elif shape == 3:
+            a = ("add", ("mul", rd, k), V(rng.randrange(n)))
+        else:
+            a = ("sub", ("rmul", k, V(rng.randrange(n))), ("mul", rd, rng.choice([1, 2, -1])))
+        b = rng.choice([C(_small(rng)), V(rng.randrange(n)), rand_expr(rng, n, 1)])
+        return ("rel", op, a, b) if rng.random() < 0.6 else ("rel", op, b, a)
     a, b = rand_expr(rng, n), rand_expr(rng, n)
     if a[0] == "const" and b[0] == "const":
         a = V(rng.randrange(n))
